@@ -628,6 +628,12 @@ pub struct Live {
 
 /// builds the case with the real builder.  Err = a panic of a builder call (index of the op, message).
 pub fn build(case: &Case) -> Result<Live, (usize, String)> {
+    build_with(case, false)
+}
+
+/// `refused_duplicates`: after every named top-level system, a second registration under the same name is attempted and
+/// its panic caught (C18 says the call panics; C20 says the print of what IS registered stays faithful)
+pub fn build_with(case: &Case, refused_duplicates: bool) -> Result<Live, (usize, String)> {
     let ctx = Ctx::new();
     let mut b = Builder::new();
     b.add_pool(pool());
@@ -636,6 +642,18 @@ pub fn build(case: &Case) -> Result<Live, (usize, String)> {
         let r = catch_unwind(AssertUnwindSafe(|| apply(&mut b, op, &mut uid, &ctx)));
         if let Err(p) = r {
             return Err((i, panic_msg(p)));
+        }
+        if refused_duplicates {
+            if let Op::Sys(s) = op {
+                if !s.name.is_empty() {
+                    let dup = LogSys::new(NONE - 1, vec![], vec![], 3, ctx.clone());
+                    let name = s.name.clone();
+                    let refused = catch_unwind(AssertUnwindSafe(|| b.add(dup, &name, &[]))).is_err();
+                    if !refused {
+                        return Err((i, format!("a second registration under the name `{}` was accepted", name)));
+                    }
+                }
+            }
         }
     }
     let debug_text = catch_unwind(AssertUnwindSafe(|| format!("{:?}", b))).map_err(panic_msg);
